@@ -160,10 +160,11 @@ func checkC20(cc any) *ev.Verdict {
 	plain := ansiRe.ReplaceAllString(pc.stdout, "")
 	// every diagnostic is printed with its position (line:column, counted from 0 or from 1
 	// throughout) and, after it, its message; the layout, the order, colours and the wording
-	// of the severity and of the summary are not part of the property. When the file name is
-	// printed with the positions, there are exactly as many of those as diagnostics.
+	// of the severity and of the summary are not part of the property (further places may be
+	// printed, e.g. related locations). When the file name is printed with the positions, there
+	// are at least as many of those as diagnostics.
 	headers := regexp.MustCompile(regexp.QuoteMeta(scriptPath)+`:\d+:\d+`).FindAllString(plain, -1)
-	if len(headers) != 0 && len(headers) != len(a.raw) {
+	if len(headers) != 0 && len(headers) < len(a.raw) {
 		return v.Failf("check-count", "`numscript check` prints %d diagnostics, the library reports %d\nscript: %q\nstdout: %s", len(headers), len(a.raw), text, plain)
 	}
 	prefix := ""
@@ -189,7 +190,7 @@ func checkC20(cc any) *ev.Verdict {
 		all := true
 		for pos, n := range wantPos {
 			got := len(posRe(pos).FindAllString(plain, -1))
-			if got < n || (prefix != "" && got != n) {
+			if got < n {
 				all = false
 				missing = pos
 			}
